@@ -91,6 +91,7 @@ func Reset() {
 	Files = map[string]string{}
 	FileWrites = nil
 	Timers = nil
+	Tickers, OnNewTicker = nil, nil
 }
 
 func next(label string) (string, bool) {
@@ -423,6 +424,32 @@ func Sleep(d time.Duration) {
 		clockNS += clockStep
 	}
 	Event("sleep")
+}
+
+// ---------------------------------------------------------------------------
+// Tickers (DESIGN §2.2, environment channels). time.NewTicker is rewritten to
+// NewTicker in the instrumented view: the ticker's channel is an ordinary
+// buffered channel that nobody but the harness feeds (c <- time.Time{}), so a
+// select of the code under test never has more than the case the harness made
+// ready — the same schedule symbolically and natively. OnNewTicker hands a
+// ticker created inside the code under test to the harness.
+
+var (
+	Tickers     []chan time.Time
+	OnNewTicker func(c chan time.Time)
+)
+
+func NewTicker(d time.Duration) *time.Ticker {
+	if d <= 0 {
+		panic("non-positive interval for NewTicker")
+	}
+	c := make(chan time.Time, 1)
+	Tickers = append(Tickers, c)
+	t := &time.Ticker{C: c} // Stop on such a ticker is a no-op (time/tick.go)
+	if OnNewTicker != nil {
+		OnNewTicker(c)
+	}
+	return t
 }
 
 // ---------------------------------------------------------------------------
